@@ -62,6 +62,18 @@ def ini_duplicates(chk, P):
         ok = out[0] == "raise" and _dup(P, out[1])
         chk.ob("C20.O1", "%s is rejected as a duplicate entry" % what, ok, site=site, found=out[1] if out[0] == "raise" else "accepted: %s" % (out[1],),
                expect="ConfigParserDuplicateEntryException", key="C20.O1|%s" % what)
+    # a second definition supplied as an added item (ConfigParser(additional=) / potable --add-item), spelt with other blanks
+    base = "[Pair]\nO-U : as.constant 1\n[EAM-Density]\nAl->Cu : as.constant 1\n[Potential-Form]\nf(r,A) = r\n"
+    for what, add in (("added item 'Pair:O - U' repeating 'O-U'", ("Pair", "O - U", "as.constant 2")),
+                      ("added item 'EAM-Density:Al -> Cu' repeating 'Al->Cu'", ("EAM-Density", "Al -> Cu", "as.constant 2")),
+                      ("added item 'Potential-Form:f(r, A)' repeating 'f(r,A)'", ("Potential-Form", "f(r, A)", "2*r")),
+                      ("added item 'Pair:O-U' repeating it verbatim", ("Pair", "O-U", "as.constant 2"))):
+        out = parse(P, base, additional=[add])
+        ok = out[0] == "raise" and isinstance(out[1], ExcV) and isinstance(out[1].cls, ClassV) \
+            and out[1].cls.ci.is_subclass_of(P.cls("atsim.potentials.config._common", "ConfigurationException"))
+        chk.ob("C20.O1", "%s is rejected, not silently substituted" % what, ok, site=site,
+               found=out[1] if out[0] == "raise" else "accepted: %s" % (out[1].get(add[0]),), expect="configuration error",
+               key="C20.O1|%s" % what)
     out = parse(P, "[Pair]\nA-B : as.zero\nA-C : as.zero\n[EAM-Density]\nA->B : as.zero\nB->A : as.zero\n[Potential-Form]\nf(r,A) = r\ng(r,A) = r\n")
     chk.ob("C20.O1", "distinct keys are accepted", out[0] == "ok", site=site, found=out[1] if out[0] != "ok" else None, expect="accepted",
            key="C20.O1|distinct-accepted")
@@ -72,6 +84,9 @@ def constructor_checks(chk, P):
     for what, text, dup in (
             ("pair in both species orders", "[Pair]\nA-B : as.zero\nB-A : as.zero\n", True),
             ("pair in both orders with blanks", "[Pair]\nA-B : as.zero\nB - A : as.zero\n", True),
+            ("pair in both species orders, the unsorted spelling first", "[Pair]\nB-A : as.zero\nA-B : as.zero\n", True),
+            ("pair in both species orders, among other pairs", "[Pair]\nC-D : as.zero\nU-O : as.zero\nA-B : as.zero\nO-U : as.zero\n", True),
+            ("three distinct pairs", "[Pair]\nB-A : as.zero\nC-A : as.zero\nC-B : as.zero\n", False),
             ("like-species pair once", "[Pair]\nA-A : as.zero\nA-B : as.zero\n", False),
             ("'Table-Form:t ' and 'Table-Form: t'", "[Table-Form:t ]\nx : 1 2\ny : 1 2\n[Table-Form: t]\nx : 1 2\ny : 1 2\n", True),
             ("'Table-Form:t' and 'Table-Form:u'", "[Table-Form:t]\nx : 1 2\ny : 1 2\n[Table-Form:u]\nx : 1 2\ny : 1 2\n", False),
